@@ -9,7 +9,8 @@
    mode 3: mode 1 plus drops: a pick 100+u drops task u if it is waiting for a lock.
    mode 4: the tasks are the children of one futures_util::future::join_all; last field = parent polls
            (a non-empty schedule = group sizes of a nested join_all: same poll order, ignored here).
-   mode 7: through minidump_processor::process_minidump (one thread per task, one frame per lookup);
+   mode 7: through minidump_processor::process_minidump (one thread per task, one frame per lookup); the processor model
+           (C12/ProcModel.v, walker regenerated from processor.rs / minidump-unwind) must agree with the printed answer;
    mode 5: multi-threaded tokio runtime; mode 6: join_all polled by hand, possibly > 30 children (FuturesUnordered).
            The schedule is not under the case's control: the model runs round-robin and only the
            schedule-independent fields are printed (sorted log; c12_quiescent_observables_schedule_independent).
@@ -70,6 +71,17 @@ let () =
         end else if mode = 5 || mode = 6 || mode = 7 then begin
           let o = run_case ts scripts (nat_of_int nleaf) [] in
           agree := (o = run_pcase pts scripts (nat_of_int nleaf) []);
+          (* mode 7: next to it the processor model (C12/ProcModel.v) on the walker regenerated from processor.rs and
+             minidump-unwind: same modules located, same answer for every frame, same counters, same leaf names in the
+             stats the ProcessState gets (which module of a shared leaf name wins depends on the schedule) *)
+          if mode = 7 then begin
+            let po = run_proccase ts scripts (nat_of_int nleaf) in
+            let sorted l = List.sort compare (List.map int_of_nat l) in
+            agree := !agree && not (o_hung po) && int_of_nat (o_mid_done po) = 2
+                     && sorted (o_log po) = sorted (o_log o) && o_results po = o_results o
+                     && o_req po = o_req o && o_proc po = o_proc o
+                     && List.map fst (o_stats po) = List.map fst (o_stats o)
+          end;
           if o_hung o then add "HUNG;" else add "OK;";
           add (join "." string_of_int (List.sort compare (List.map int_of_nat (o_log o)))); add ";-;";
           add (pres (o_results o)); add ";";
